@@ -16,6 +16,7 @@ TABLES = {
     "origin": dict(test="TestTableOrigin", module="OriginCheck", pkg="gw", env={"quick": {"VERIF_ORIGIN_LEN": "3"}, "thorough": {"VERIF_ORIGIN_LEN": "4"}}),
     "httpstatus": dict(test="TestTableHTTPStatus", module="HttpStatusCheck", pkg="gw", env={}),
     "render": dict(test="TestTableRender", module="RenderCheck", pkg="gw", env={"quick": {"VERIF_RENDER_FULL": "0"}, "thorough": {"VERIF_RENDER_FULL": "1"}}),
+    "wsupgrade": dict(test="TestTableWSUpgrade", module="WSUpgradeCheck", pkg="gw", env={}),
     "httppost": dict(test="TestTablePost", module="PostCheck", pkg="gw", env={}),
     "adapter": dict(test="TestTraceAdapter", module="AdapterCheck", pkg="natsx", env={"quick": {"VERIF_NATS_ROUNDS": "3"}, "thorough": {"VERIF_NATS_ROUNDS": "25"}}),
     "modeldiff": dict(test="TestTableModelDiff", module="ModelDiffCheck", env={"quick": {"VERIF_DIFF_KEYS": "2"}, "thorough": {"VERIF_DIFF_KEYS": "3"}}),
